@@ -1028,3 +1028,45 @@ def run_batch(programs, jobs=16, tmp=None):
 if __name__ == '__main__':
     progs = json.load(sys.stdin)
     json.dump(run_batch(progs), sys.stdout)
+
+
+def _warm_child(tasks):
+    """Several single-process programs one after the other in ONE process (no pristine fork in between)."""
+    try:
+        dn = os.open(os.devnull, os.O_WRONLY)
+        os.dup2(dn, 2)
+        os.close(dn)
+    except OSError:
+        pass
+    out = []
+    for task in tasks:
+        try:
+            if not HOOKS_OK:
+                out.append({'machinery_error': 'hooks are not enabled in the imported dliswriter'})
+            else:
+                out.append({'events': run_program(task)})
+        except BaseException as e:  # noqa
+            out.append({'machinery_error': ''.join(traceback.format_exception(type(e), e, e.__traceback__))[-2000:]})
+    return out
+
+
+def run_warm(programs, group=20, jobs=16, tmp=None):
+    """Run single-process programs in groups that share one process each ("warm" processes: whatever the library keeps
+    between calls - caches, class-level state, the global configuration - is inherited from the programs run before).
+    Returns traces in the order of `programs`."""
+    if not programs:
+        return []
+    tasks = [{'id': p['id'], 'steps': p['steps'], 'arrays': p.get('arrays', {}), 'tz': None, 'np_seed': p.get('np_seed'), '_tmp': tmp,
+              '_proc': 1, '_oid0': 1, '_track': False, '_fresh': False} for p in programs]
+    groups = [tasks[i:i + group] for i in range(0, len(tasks), group)]
+    ctx = mp.get_context('fork')
+    with ctx.Pool(processes=min(jobs, len(groups)), maxtasksperchild=1) as pool:
+        res = pool.map(_warm_child, groups, chunksize=1)
+    flat = [r for g in res for r in g]
+    traces = []
+    for p, r in zip(programs, flat):
+        t = {'id': p['id'], 'flags': {'cmpproj': False}, 'events': r.get('events', [])}
+        if 'machinery_error' in r:
+            t['machinery_error'] = r['machinery_error']
+        traces.append(t)
+    return traces
